@@ -255,6 +255,11 @@ def compare(cases, exe=None, sw=None, shard=40, want_model=True):
         if want_model:
             exprs.append(model_expr(c, r, sj, sw)); idx.append(len(results) - 1)
     if want_model and exprs:
+        okb, logb = vlib.coq_make(["theories/Engine/Run.vo"])
+        if not okb:
+            for i in idx:
+                results[i]["status"] = "model-error"; results[i]["error"] = "engine model does not build: " + logb[-1500:]
+            return results
         pre = "From Ink.Engine Require Import Run.\nFrom Ink.Data Require Import Types.\n"
         try:
             outs = vlib.coq_eval_sharded(pre, exprs, shard=shard, name="eng")
